@@ -8,9 +8,16 @@ typedef struct { int vx, vy, vz; } FormatVersion;      /* data members of class 
 /* FormatVersion({x, y, z}): initializer-list constructor (three elements) and address of a temporary */
 static inline FormatVersion mk_FormatVersion_list(int x, int y, int z) { FormatVersion v; v.vx = x; v.vy = y; v.vz = z; return v; }
 static inline FormatVersion *TMP_FormatVersion(FormatVersion v) { FormatVersion *p = malloc(sizeof(FormatVersion)); __CPROVER_assume(p != NULL); *p = v; return p; }
+#ifndef NIX_WITNESS
 #define FV_OK(p) __CPROVER_is_fresh(p, sizeof(FormatVersion))
+#define FV_W2(a, b) 1
+#else   /* replay: both triples are mirrored into globals the witness / oracle harness assigns (vlib/replay.py) */
+extern int g_fa0, g_fa1, g_fa2, g_fb0, g_fb1, g_fb2;
+#define FV_OK(p) __CPROVER_is_fresh(p, sizeof(FormatVersion))
+#define FV_W2(a, b) ((a)->vx == g_fa0 && (a)->vy == g_fa1 && (a)->vz == g_fa2 && (b)->vx == g_fb0 && (b)->vy == g_fb1 && (b)->vz == g_fb2)
+#endif
 /* second operand may alias the first (a < a is legal C++) */
-#define FV_OK2(a, b) (FV_OK(a) && ((b) == (a) || FV_OK(b)))
+#define FV_OK2(a, b) (FV_OK(a) && ((b) == (a) || FV_OK(b)) && FV_W2(a, b))
 #define FV_LEX_LT(a, b) ((a)->vx < (b)->vx || ((a)->vx == (b)->vx && ((a)->vy < (b)->vy || ((a)->vy == (b)->vy && (a)->vz < (b)->vz))))
 #define FV_EQ(a, b) ((a)->vx == (b)->vx && (a)->vy == (b)->vy && (a)->vz == (b)->vz)
 #define RV __CPROVER_return_value
